@@ -84,7 +84,7 @@ def a_scenarios(rng=None):
 DATA_OPS = ("put", "del", "cset", "cdel", "setmeta", "dbcreate", "dbdestroy")
 # scenarios in which the unchanged library writes a log record with no lock held that excludes a remap
 # (_sblk_destroy: `onset` behind release_mmap, notes/conc.md): upper bound of such records per operation
-UNGUARDED_KNOWN = {"del_lastnode": 1, "cdel_lastnode": 1}
+UNGUARDED_KNOWN = {}    # _sblk_destroy logged behind release_mmap until 5ef9921 (fixed entry in known_findings.json)
 
 
 def b_ops(key, delkey=None):
